@@ -1071,6 +1071,12 @@ func (g *Gen) lifeProgram(n int) {
 			if len(feeds) > 0 {
 				f := pick(g.r, feeds)
 				g.emit(Line{Op: "stopfeed", Pos: []string{f.id}})
+				// ending one feed must not starve the others of its collection: probe it right away
+				if collOpen[h][f.coll] {
+					g.emit(Line{Op: "lifestate"})
+					g.emit(Line{Op: "probe", Pos: []string{f.coll}, Args: [][2]string{{"via", h}}})
+					g.stats["op:probe"]++
+				}
 			}
 		case 4:
 			c := pick(g.r, []string{"c1", "c2"})
@@ -1173,11 +1179,15 @@ func (g *Gen) program(n int) {
 	if g.profile == "feeds" || g.profile == "multi" {
 		i := 0
 		for _, c := range g.colls {
-			if g.r.chance(70) {
+			// up to two live feeds per collection, full and keys-only in either order of registration
+			for _, p := range []int{70, 35} {
+				if !g.r.chance(p) {
+					break
+				}
 				id := fmt.Sprintf("f%d", i)
 				i++
 				l := Line{Op: "feed", Pos: []string{id, c}, Args: [][2]string{{"bf", "none"}}}
-				if g.r.chance(15) {
+				if g.r.chance(25) {
 					l.add("keysonly", "1")
 				}
 				g.emit(l)
